@@ -618,7 +618,9 @@ Proof.
   match goal with |- context [if c =? 69 then ?X else _] => set (EB := X) end.
   destruct (c =? 89). { clear EB. pi_fin. }
   destruct (c =? 109). { clear EB. pi_fin. }
-  destruct ((c =? 100) || (c =? 101)). { clear EB. pi_fin. }
+  destruct ((c =? 100) || (c =? 101)).
+  { clear EB.
+    match goal with |- context [if ?b then parse_int32 (tl data) 1 1 9 else _] => destruct b end; pi_fin. }
   destruct (c =? 85). { clear EB. pi_fin. }
   destruct (c =? 87). { clear EB. pi_fin. }
   destruct (c =? 117). { clear EB. pi_fin. }
